@@ -78,6 +78,19 @@ pub fn document(t: &mut Tape, focus: Focus) -> String {
     if t.chance(20) {
         let nl = t.pick(&crate::gen::mutate::NEWLINES);
         s = s.replace('\n', nl);
+    } else if t.chance(12) {
+        // mixed line endings (a file edited on several systems, pasted snippets): each line feed on its own
+        // becomes another newline spelling with probability 1/3 -- wherever it stands, also inside a string
+        // or raw text (any text the parser accepts is a legitimate input)
+        let mut out = String::with_capacity(s.len() + 8);
+        for ch in s.chars() {
+            if ch == '\n' && t.chance(85) {
+                out.push_str(t.pick(&crate::gen::mutate::NEWLINES));
+            } else {
+                out.push(ch);
+            }
+        }
+        s = out;
     }
     s
 }
